@@ -122,6 +122,9 @@ def gen_pratt():
     L += [f"  | .{v} => {lean_chars(t)}" for v, t in binops]
     L.append("def BinOp.name : BinOp → String")
     L += [f'  | .{v} => "{v}"' for v, _ in binops]
+    L.append("/-- variant name in lower case, as characters -/")
+    L.append("def BinOp.lname : BinOp → List Char")
+    L += [f'  | .{v} => {lean_chars(v.lower())}' for v, _ in binops]
     L += ["", "/-- `pr::UnOp` -/", "inductive UnOp where"]
     L += [f"  | {v}" for v, _ in unops] + ["  deriving DecidableEq, Repr", ""]
     L.append("def UnOp.all : List UnOp := [" + ", ".join("." + v for v, _ in unops) + "]")
